@@ -69,6 +69,7 @@ void harness(void) {
   VASSERT(vk_sem_handles(0) == 0, "kernel model: handles of the dead process are closed");
 
   /* Q's documented recovery */
+  vk_no_rescuer = (q0 == NULL);  /* unless Q itself holds an older handle, nobody is left who could post */
   vk_cur = 1;
   int w = ND_RANGE(0, VMAX), v = ND_RANGE(0, VMAX);
   PSemaphore *s = p_semaphore_new("a", w, P_SEM_ACCESS_OPEN, NULL);
@@ -78,6 +79,7 @@ void harness(void) {
   p_semaphore_free(s);
   VASSERT(vk_sem_linked(0) < 0, "recovery: owner free removed the name from the system");
   PSemaphore *c = p_semaphore_new("a", v, P_SEM_ACCESS_CREATE, NULL);
+  vk_no_rescuer = 0;
   VASSERT(c != NULL, "recovery: p_semaphore_new(CREATE) succeeds");
   VASSUME(c != NULL);
   int obj = vk_sem_linked(0);
